@@ -56,7 +56,7 @@ def run(ctx):
         return c.tlc_mc("MC_MonoOrd", "MC_MonoOrd.thorough.cfg" if th else "MC_MonoOrd.cfg", workers=1, coverage=False, timeout=1500)
     par(ctx, [mc_machine, mc_oracle, mc_order])
     if th:
-        ctx.tlc_mc("MC_Rings", "MC_Rings.cfg", workers=1, coverage=False, timeout=900)
+        ctx.tlc_mc("MC_Rings", "MC_Rings.cfg", workers=1, coverage=False, timeout=900, cache=True)
 
     # ---- phase 2: A (TLC transitions -> implementation) and B (implementation histories -> TLC), concurrently
     nparts = 4 if th else 3
